@@ -655,6 +655,10 @@ def call(name, args, ctx):
         if ctx.keys is None:
             raise XPathError('no keys')
         return ctx.keys(to_str(ev(0)), ev(1), ctx)
+    if ':' in name and name.split(':')[0] in ('set', 'math', 'str', 'exsl', 'dyn', 'xalan'):
+        r = call_extension(name, args, ctx, ev, need)
+        if r is not NotImplemented:
+            return r
     if name == 'xalan:nodeset':
         need(1)
         v = ev(0)
@@ -664,6 +668,105 @@ def call(name, args, ctx):
     if name == 'generate-id' or name == 'document':
         raise XPathError('unsupported in reference: ' + name)
     raise XPathError('unknown function ' + name)
+
+
+def _ns_arg(v, fname):
+    if not isinstance(v, NodeSet):
+        raise XPathError(fname + ' needs a node-set')
+    return v
+
+
+def call_extension(name, args, ctx, ev, need):
+    """EXSLT (sets, math, strings, common, dynamic) and xalan: set functions, per their published definitions"""
+    import xpparse
+    if name in ('set:difference', 'xalan:difference'):
+        need(2)
+        a, b_ = _ns_arg(ev(0), name), _ns_arg(ev(1), name)
+        ids = set(id(x) for x in b_)
+        return NodeSet([x for x in a if id(x) not in ids])
+    if name in ('set:intersection', 'xalan:intersection'):
+        need(2)
+        a, b_ = _ns_arg(ev(0), name), _ns_arg(ev(1), name)
+        ids = set(id(x) for x in b_)
+        return NodeSet([x for x in a if id(x) in ids])
+    if name in ('set:distinct', 'xalan:distinct'):
+        need(1)
+        seen = set()
+        out = []
+        for x in _ns_arg(ev(0), name):
+            sv = x.string_value()
+            if sv not in seen:
+                seen.add(sv)
+                out.append(x)
+        return NodeSet(out)
+    if name == 'set:has-same-node':
+        need(2)
+        a, b_ = _ns_arg(ev(0), name), _ns_arg(ev(1), name)
+        ids = set(id(x) for x in b_)
+        return any(id(x) in ids for x in a)
+    if name == 'xalan:hasSameNodes':
+        need(2)
+        a, b_ = _ns_arg(ev(0), name), _ns_arg(ev(1), name)
+        return set(id(x) for x in a) == set(id(x) for x in b_)
+    if name in ('set:leading', 'set:trailing'):
+        need(2)
+        a, b_ = _ns_arg(ev(0), name), _ns_arg(ev(1), name)
+        if not b_:
+            return NodeSet(list(a))
+        first = b_[0]
+        if not any(x is first for x in a):
+            return NodeSet([])
+        if name == 'set:leading':
+            return NodeSet([x for x in a if (x.doc.seq, x.order) < (first.doc.seq, first.order)])
+        return NodeSet([x for x in a if (x.doc.seq, x.order) > (first.doc.seq, first.order)])
+    if name in ('math:min', 'math:max', 'math:highest', 'math:lowest'):
+        need(1)
+        a = _ns_arg(ev(0), name)
+        vals = [str_to_num(x.string_value()) for x in a]
+        bad = (not vals) or any(v != v for v in vals)
+        if name in ('math:min', 'math:max'):
+            if bad:
+                return math.nan
+            return min(vals) if name == 'math:min' else max(vals)
+        if bad:
+            return NodeSet([])
+        m = max(vals) if name == 'math:highest' else min(vals)
+        return NodeSet([x for x, v in zip(a, vals) if v == m])
+    if name == 'math:abs':
+        need(1)
+        return abs(to_num(ev(0)))
+    if name == 'math:sqrt':
+        need(1)
+        v = to_num(ev(0))
+        return math.sqrt(v) if v >= 0 else math.nan
+    if name == 'str:concat':
+        need(1)
+        return ''.join(x.string_value() for x in _ns_arg(ev(0), name))
+    if name == 'str:padding':
+        need(1, 2)
+        n = xround(to_num(ev(0)))        # EXSLT does not say how a fractional length is made integral; rounding is accepted
+        pad = to_str(ev(1)) if len(args) > 1 else ' '
+        if n != n or n < 1 or pad == '':
+            return ''
+        if math.isinf(n) or n > 100000:
+            raise XPathError('str:padding length that cannot be a string length')
+        n = int(n)
+        return (pad * (n // len(pad) + 1))[:n]
+    if name == 'exsl:object-type':
+        need(1)
+        v = ev(0)
+        return {'b': 'boolean', 'n': 'number', 's': 'string', 'ns': 'node-set'}[type_of(v)]
+    if name in ('dyn:evaluate', 'xalan:evaluate'):
+        need(1)
+        text = to_str(ev(0))
+        try:
+            ast = xpparse.parse_tokens(text.split())
+        except xpparse.Reject:
+            if name == 'dyn:evaluate':
+                return NodeSet([])         # EXSLT: an invalid expression gives an empty node-set
+            raise XPathError('invalid expression in xalan:evaluate')
+        return evaluate(ast, ctx)
+    return NotImplemented
 
 
 def evaluate(e, ctx):
